@@ -610,4 +610,114 @@ def Sess.answer (env : Nat → Nat → (Nat → α) → DV α) (thr : α) (s : S
 
 end Ordered
 
+/-! ### Storage of the value path (which arrays are new, which are views) -/
+
+section Storage
+
+variable {α : Type} [Add α] [Mul α] [Sub α] [Neg α] [Div α] [OfNat α 0] [OfNat α 1]
+
+/-- An array as its holder sees it: the storage cell it lives in and, for each of its components,
+    the position of the cell it shows (`none`: out of range, reads 0). A new array shows its whole
+    cell; a basic-slice view (`x[1:]`, `x[::-1]`, `x` itself) shows positions of the cell of `x`. -/
+structure Arr where
+  cell : Nat
+  idx : List (Option Nat)
+  deriving Repr
+
+/-- The storage: the content of every allocated cell. Cell 0 is the caller's point buffer. -/
+abbrev Store (α : Type) := List (List α)
+
+def Store.at (h : Store α) (c : Nat) (o : Option Nat) : α :=
+  match o with
+  | some i => (h.getD c []).getD i 0
+  | none => 0
+
+/-- The numbers an array shows now. -/
+def Store.read (h : Store α) (a : Arr) : List α := a.idx.map (h.at a.cell)
+
+/-- Allocation of a new array with the given content (`empty`/`array`/the result of a NumPy
+    arithmetic operation): a new cell, never an existing one. -/
+def Store.new (h : Store α) (v : List α) : Store α × Arr :=
+  (h ++ [v], ⟨h.length, (List.range v.length).map some⟩)
+
+/-- A value vector as a `DV` (to reuse the operator semantics of the tree model). -/
+def valDV (u : List α) : DV α := { m := u.length, val := vec u, jac := fun _ _ => 0 }
+
+/-- `f(x) op g(x)` on value vectors, with the broadcasting of `DV.bin`. -/
+def binVal (op : BinOp) (u v : List α) : List α :=
+  (List.range (max u.length v.length)).map (DV.bin op (valDV u) (valDV v)).val
+
+/-- The value path of the nodes whose result storage matters. -/
+inductive SExpr (α : Type) where
+  /-- user function returning the components `sel` of its input as a view (`lambda x: x`, `x[1:]`, `x[::-1]`) -/
+  | view (sel : List Nat)
+  /-- user function computing a new array -/
+  | fresh (f : List α → List α)
+  /-- `FunctionRestriction` -/
+  | restrict (N : Nat) (frozen : List Nat) (vals : List α) (a : SExpr α)
+  /-- `LinearCompositeFunction` -/
+  | lincomp (A : List (List α)) (a : SExpr α)
+  /-- `f + g`, `f - g`, `f * g`, `f / g` -/
+  | bin (op : BinOp) (a b : SExpr α)
+  /-- `-f` -/
+  | neg (a : SExpr α)
+  /-- `Concatenate` -/
+  | concat (a b : SExpr α)
+
+/-- Pure semantics on values (the value part of `evalTree` on this fragment: same `extendPt`,
+    `matVec`, `DV.bin`). -/
+def SExpr.sem : SExpr α → List α → List α
+  | .view sel, x => sel.map (fun i => x.getD i 0)
+  | .fresh f, x => f x
+  | .restrict N frozen vals a, x => a.sem ((List.range N).map (extendPt N frozen vals (vec x)))
+  | .lincomp A a, x => a.sem ((List.range A.length).map (matVec x.length (mat A) (vec x)))
+  | .bin op a b, x => binVal op (a.sem x) (b.sem x)
+  | .neg a, x => (a.sem x).map (fun t => - t)
+  | .concat a b, x => a.sem x ++ b.sem x
+
+/-- Evaluation with the storage made explicit, allocation points transcribed from the code:
+    `__extend_subvect` builds a NEW vector at every call (`empty(N)`, two assignments), `A @ x` is a
+    new array, the operators read both operand arrays once BOTH have been evaluated and build a new
+    array, `-f(x)` and `concatenate` build new arrays; a view leaf allocates nothing. -/
+def SExpr.run : SExpr α → Store α → Arr → Store α × Arr
+  | .view sel, h, x => (h, ⟨x.cell, sel.map (fun i => x.idx.getD i none)⟩)
+  | .fresh f, h, x => h.new (f (h.read x))
+  | .restrict N frozen vals a, h, x =>
+      a.run (h.new ((List.range N).map (extendPt N frozen vals (vec (h.read x))))).1
+        (h.new ((List.range N).map (extendPt N frozen vals (vec (h.read x))))).2
+  | .lincomp A a, h, x =>
+      a.run (h.new ((List.range A.length).map (matVec (h.read x).length (mat A) (vec (h.read x))))).1
+        (h.new ((List.range A.length).map (matVec (h.read x).length (mat A) (vec (h.read x))))).2
+  | .bin op a b, h, x =>
+      (b.run (a.run h x).1 x).1.new
+        (binVal op ((b.run (a.run h x).1 x).1.read (a.run h x).2) ((b.run (a.run h x).1 x).1.read (b.run (a.run h x).1 x).2))
+  | .neg a, h, x => (a.run h x).1.new (((a.run h x).1.read (a.run h x).2).map (fun t => - t))
+  | .concat a b, h, x =>
+      (b.run (a.run h x).1 x).1.new
+        ((b.run (a.run h x).1 x).1.read (a.run h x).2 ++ (b.run (a.run h x).1 x).1.read (b.run (a.run h x).1 x).2)
+
+/-- What a caller does with one tree: it rewrites its point buffer (cell 0) or calls the function
+    on the buffer and KEEPS the returned array. -/
+inductive HOp (α : Type) where
+  | write (p : List α)
+  | call (e : SExpr α)
+
+/-- Storage + the arrays returned so far, each with the numbers it showed when it was returned. -/
+structure Hist (α : Type) where
+  store : Store α
+  kept : List (Arr × List α)
+
+/-- The caller's buffer as an array. -/
+def Store.buffer (h : Store α) : Arr := ⟨0, (List.range (h.getD 0 []).length).map some⟩
+
+def Hist.step (s : Hist α) : HOp α → Hist α
+  | .write p => { s with store := s.store.set 0 p }
+  | .call e =>
+      { store := (e.run s.store s.store.buffer).1
+        kept := s.kept ++ [((e.run s.store s.store.buffer).2, (e.run s.store s.store.buffer).1.read (e.run s.store s.store.buffer).2)] }
+
+def Hist.after (s : Hist α) (ops : List (HOp α)) : Hist α := ops.foldl Hist.step s
+
+end Storage
+
 end GV.C10
